@@ -295,28 +295,33 @@ let mime_case (toks : string list) : string =
 
 (* ---------------- cookies (C17) ---------------- *)
 
-let cookie_fields (c : unit M.cookie) : string =
+let z_of_int (i : int) : M.z = if i = 0 then M.Z0 else if i > 0 then M.Zpos (pos_of_int i) else M.Zneg (pos_of_int (-i))
+
+let cookie_fields (c : M.z M.cookie) : string =
   let opt = function Some v -> "S" ^ (let h = hex_of_bytes v in if h = "-" then "-" else h) | None -> "N" in
   let ext = List.sort compare (List.map (fun (k, v) -> hex_of_bytes k ^ "=" ^ hex_of_bytes v) c.M.c_ext) in
   Printf.sprintf "%s %s %s %s %s %s %d %d e=%s" (hex_of_bytes c.M.c_name) (hex_of_bytes c.M.c_value)
     (opt c.M.c_path) (opt c.M.c_domain)
-    (match c.M.c_maxage with Some n -> decimal_of_n n | None -> "N") "N"
+    (match c.M.c_maxage with Some n -> decimal_of_n n | None -> "N")
+    (match c.M.c_expires with Some d -> "S" ^ hex_of_bytes (M.date_write d) | None -> "N")
     (if c.M.c_secure then 1 else 0) (if c.M.c_httponly then 1 else 0)
     (if ext = [] then "-" else String.concat "," ext)
 
 let cookie_case (toks : string list) : string =
-  let date_write () = [] and date_parse _ = None in
+  (* dates: the Date model (DateModel.date_write; the strict reader + the range check of DateInst.dsec_of - a subset type in
+     Coq, its carrier Z here) *)
+  let in_range z = M.Z.leb M.date_lo z && M.Z.leb z M.date_hi in
+  let date_write z = M.date_write z and date_parse t = match M.date_parse t with Some z when in_range z -> Some z | _ -> None in
   match toks with
   | [ "C"; text ] ->
     (match M.from_raw date_parse (bytes_of_hex text) with
      | Some c -> "C ok " ^ cookie_fields c
      | None -> "C err")
-  | "W" :: _ :: _ :: _ :: _ :: _ :: expires :: _ when expires <> "-" -> "IMPL-ONLY"
-  | "W" :: name :: value :: path :: domain :: maxage :: _expires :: secure :: httponly :: ext ->
+  | "W" :: name :: value :: path :: domain :: maxage :: expires :: secure :: httponly :: ext ->
     let o x = if x = "-" then None else Some (bytes_of_hex (String.sub x 1 (String.length x - 1))) in
     let c = { M.c_name = bytes_of_hex name; M.c_value = bytes_of_hex value; M.c_path = o path; M.c_domain = o domain;
               M.c_maxage = (if maxage = "-" then None else Some (n_of_int (int_of_string maxage)));
-              M.c_expires = None; M.c_secure = (secure = "1"); M.c_httponly = (httponly = "1");
+              M.c_expires = (if expires = "-" then None else Some (z_of_int (int_of_string expires))); M.c_secure = (secure = "1"); M.c_httponly = (httponly = "1");
               M.c_ext = List.map (fun x -> match String.split_on_char '=' x with [ k; v ] -> (bytes_of_hex k, bytes_of_hex v) | _ -> ([], [])) ext } in
     let back = match M.from_raw date_parse (M.write_cookie date_write c) with
       | Some c' -> "ok " ^ cookie_fields c' | None -> "err" in
@@ -334,7 +339,6 @@ let cookie_case (toks : string list) : string =
 
 let str_of_bytes (b : M.ascii list) : string = String.concat "" (List.map (fun a -> String.make 1 (Char.chr (int_of_ascii a))) b)
 
-let z_of_int (i : int) : M.z = if i = 0 then M.Z0 else if i > 0 then M.Zpos (pos_of_int i) else M.Zneg (pos_of_int (-i))
 
 let cc_list (ds : (M.n * M.z) list) : string =
   if ds = [] then "-" else
